@@ -4,7 +4,7 @@
 (* exercised library call group; this module judges every event with the   *)
 (* operators of Cmap.tla (written from the OpenType text).  Events are     *)
 (* independent of each other; every event is consumed, and for an event    *)
-(* that breaks a clause TLC prints <<"FAIL", line, case, kind, clauses>>.  *)
+(* that breaks a clause TLC prints <<"FAIL", line, case, kind, clause>>.   *)
 (*                                                                         *)
 (*  enc    a map was handed to cmap.Format4 / cmap.Format12 .Encode(lang): *)
 (*         w = the emitted 16-bit words.  Clauses:                         *)
@@ -33,6 +33,17 @@
 (*         subtable of the best class present (best).                      *)
 (*  tdec   a spec-encoded table through cmap.Decode (libdec) and again     *)
 (*         through Encode (redir, reshare).                                *)
+(*  hE/hG/hT/hD  one call of a call HISTORY (CmapHist.tla): an encoder, a   *)
+(*         Table.Get, a Table.Encode, a cmap.Decode.  The harness kept the  *)
+(*         real result and recorded it when it was handed out (1), after    *)
+(*         all later calls of the history (2) and, for decoded subtables,   *)
+(*         after the bytes they were decoded from had been overwritten (3). *)
+(*         Clauses: correct (value 1 is what the format defines), stable    *)
+(*         (2 = 1), indep (3 = 1), input (the arguments are untouched).     *)
+(*  sel    selection with ties (CmapSel.tla): per call site the set of      *)
+(*         DISTINCT answers over >= 50 calls, all processes: get,           *)
+(*         nolang_member, nolang_det, best (+ after Encode/Decode: d...);   *)
+(*         nolang_first (lowest language) is a note, not a verdict.         *)
 (***************************************************************************)
 EXTENDS Cmap, Json
 
@@ -142,15 +153,106 @@ TdecClause(n) ==
                         ELSE E.bok = 1 /\ \E i \in 1..Len(E.best) : E.best[i] = E.bg
 TdecNames == {"specwf", "libdec", "redir", "reshare", "best"}
 
+\* -------------------------------------------------------------- histories
+\* a subtable is well formed for its own language field
+WFAny(w) ==
+  /\ Len(w) >= 3
+  /\ CASE W(w, 0) = 0  -> WF0(w, W(w, 2))
+       [] W(w, 0) = 4  -> WF4(w, W(w, 2))
+       [] W(w, 0) = 6  -> WF6(w, W(w, 2))
+       [] W(w, 0) = 12 -> Len(w) >= 6 /\ WF12(w, W(w, 5))
+       [] OTHER -> FALSE
+HP == NonZero(ZipP(E.ic, E.ig))
+HEClause(n) ==
+  CASE n = "correct" -> /\ E.n1 = 2 * Len(E.w1)
+                        /\ (CASE E.fmt = 4  -> WF4(E.w1, E.lang) /\ Agree4(E.w1, HP)
+                              [] E.fmt = 12 -> WF12(E.w1, E.lang) /\ Agree12(E.w1, HP)
+                              [] E.fmt = 0  -> WF0(E.w1, E.lang) /\ Pairs0(E.w1) = HP)
+    [] n = "stable"  -> E.w2 = E.w1 /\ E.n2 = E.n1
+    [] n = "input"   -> E.ic2 = E.ic /\ E.ig2 = E.ig
+HNames == {"correct", "stable", "input"}
+
+HGExpected(got) ==
+  LET p == SpecPairs(E.w, E.fmt) IN
+  IF E.pid = 1 /\ E.fmt # 12 THEN got = p \/ got = MacToUnicode(p) ELSE got = p
+HGClause(n) ==
+  CASE n = "correct" -> WFAny(E.w) /\ W(E.w, 0) = E.fmt =>
+                          /\ E.ok1 = 1
+                          /\ HGExpected(Below(Sweep(E.c1, E.g1), Lim(E.fmt)))
+                          /\ Above(Sweep(E.c1, E.g1), Lim(E.fmt)) = <<>>
+    [] n = "stable"  -> E.ok2 = E.ok1 /\ E.c2 = E.c1 /\ E.g2 = E.g1
+    [] n = "indep"   -> E.ok3 = E.ok1 /\ E.c3 = E.c1 /\ E.g3 = E.g1
+    [] n = "input"   -> E.wa = E.w
+HGNames == {"correct", "stable", "indep", "input"}
+
+HTClause(n) ==
+  CASE n = "correct" -> (\A j \in 1..Len(E.subs) : WFAny(E.subs[j])) =>
+                          DirMatches(E.tb1, E.keys, E.subs) /\ ShareMatches(E.tb1, E.subs)
+    [] n = "stable"  -> E.tb2 = E.tb1
+    [] n = "input"   -> E.subs2 = E.subs
+\* cmap.Decode: keys in directory order, language 0 outside the Macintosh platform
+HDExpect(b) == LET t == TableDec(b) IN
+  [j \in 1..Len(t) |-> << <<t[j][1], t[j][2], IF t[j][1] = 1 THEN t[j][3] ELSE 0>>, t[j][4] >>]
+HDClause(n) ==
+  CASE n = "correct" -> WFTable(E.tb) =>
+                          /\ E.ok1 = 1 /\ Len(E.dk1) = NumTables(E.tb) /\ Len(E.db1) = NumTables(E.tb)
+                          /\ \A j \in 1..Len(E.dk1) : <<E.dk1[j], E.db1[j]>> = HDExpect(E.tb)[j]
+    [] n = "stable"  -> E.ok2 = E.ok1 /\ E.dk2 = E.dk1 /\ E.db2 = E.db1
+    [] n = "input"   -> E.tba = E.tb
+
+\* -------------------------------------------------------------- selection
+\* keys: <<platform, encoding, language, id>>; an answer is the id (probe glyph) or 9999 = error
+SelCands(p, e) == {E.keys[j][4] : j \in {i \in 1..Len(E.keys) : E.keys[i][1] = p /\ E.keys[i][2] = e}}
+SelFirst(p, e) ==
+  LET c == {i \in 1..Len(E.keys) : E.keys[i][1] = p /\ E.keys[i][2] = e}
+  IN E.keys[CHOOSE i \in c : \A j \in c : E.keys[i][3] <= E.keys[j][3]][4]
+SelStored(p, e, lg) == {E.keys[j][4] : j \in {i \in 1..Len(E.keys) : <<E.keys[i][1], E.keys[i][2], E.keys[i][3]>> = <<p, e, lg>>}}
+SelBest == LET k0 == {<<E.keys[j][1], E.keys[j][2]>> : j \in {i \in 1..Len(E.keys) : E.keys[i][3] = 0}}
+               bc == BestClass(k0)
+           IN {E.keys[j][4] : j \in {i \in 1..Len(E.keys) : E.keys[i][3] = 0 /\ <<E.keys[i][1], E.keys[i][2]>> \in bc}}
+GetsOK(gets) == \A x \in 1..Len(gets) :
+  LET g == gets[x]
+      st == SelStored(g[1], g[2], g[3])
+  IN IF st = {} THEN g[4] = <<9999>>
+     ELSE IF g[1] = 1 /\ g[2] # 0 THEN Len(g[4]) = 1 /\ (g[4][1] \in st \/ g[4][1] = 9999)   \* only Mac Roman is promised
+     ELSE Len(g[4]) = 1 /\ g[4][1] \in st
+NoLangMember(nl) == \A x \in 1..Len(nl) :
+  LET c == SelCands(nl[x][1], nl[x][2])
+  IN IF c = {} THEN nl[x][3] = <<9999>> ELSE \A i \in 1..Len(nl[x][3]) : nl[x][3][i] \in c
+NoLangDet(nl) == \A x \in 1..Len(nl) : Len(nl[x][3]) = 1
+NoLangFirst(nl) == \A x \in 1..Len(nl) :
+  SelCands(nl[x][1], nl[x][2]) # {} => nl[x][3] = <<SelFirst(nl[x][1], nl[x][2])>>
+BestSelOK(b) == Len(b) = 1 /\ (SelBest = {} \/ b[1] \in SelBest)
+SelClause(n) ==
+  CASE n = "get"            -> GetsOK(E.gets)
+    [] n = "nolang_member"  -> NoLangMember(E.nolang)
+    [] n = "nolang_det"     -> NoLangDet(E.nolang)
+    [] n = "nolang_first"   -> NoLangFirst(E.nolang)
+    [] n = "best"           -> BestSelOK(E.best)
+    [] n = "dok"            -> E.dok = 1
+    [] n = "dget"           -> E.dok = 1 => GetsOK(E.dgets)
+    [] n = "dnolang_member" -> E.dok = 1 => NoLangMember(E.dnolang)
+    [] n = "dnolang_det"    -> E.dok = 1 => NoLangDet(E.dnolang)
+    [] n = "dnolang_first"  -> E.dok = 1 => NoLangFirst(E.dnolang)
+    [] n = "dbest"          -> E.dok = 1 => BestSelOK(E.dbest)
+    [] n = "calls"          -> E.calls >= 50 /\ E.procs >= 1
+SelNames == {"get", "nolang_member", "nolang_det", "nolang_first", "best", "dok", "dget", "dnolang_member",
+             "dnolang_det", "dnolang_first", "dbest", "calls"}
+
 \* ------------------------------------------------------------------ step
 Fails == CASE E.ev = "enc"  -> {n \in EncNames : ~EncClause(n)}
            [] E.ev = "dec"  -> {n \in DecNames : ~DecClause(n)}
            [] E.ev = "mac"  -> {n \in MacNames : ~MacClause(n)}
            [] E.ev = "tenc" -> {n \in TencNames : ~TencClause(n)}
            [] E.ev = "tdec" -> {n \in TdecNames : ~TdecClause(n)}
+           [] E.ev = "hE"   -> {n \in HNames : ~HEClause(n)}
+           [] E.ev = "hG"   -> {n \in HGNames : ~HGClause(n)}
+           [] E.ev = "hT"   -> {n \in HNames : ~HTClause(n)}
+           [] E.ev = "hD"   -> {n \in HNames : ~HDClause(n)}
+           [] E.ev = "sel"  -> {n \in SelNames : ~SelClause(n)}
 
 Step == /\ l <= Len(Trace)
-        /\ LET f == Fails IN IF f = {} THEN TRUE ELSE PrintT(<<"FAIL", l, E.case, E.ev, f>>)
+        /\ \A n \in Fails : PrintT(<<"FAIL", l, E.case, E.ev, n>>)      \* one short line per clause
         /\ Consume
 Next == Step
 Spec == Init /\ [][Next]_l
